@@ -15,6 +15,13 @@ RULE = ('cases: (a) spectrum of a record through Signal/AccSignal.gen_fa_spectru
         '(d) relational clauses evaluated in Coq on implementation outputs: object-level = array-level, linearity, trailing zeros, Parseval (even N), '
         'fas2values(fas(x)) = padded x - mean - Nyquist (even N, strict length), fas2values structure on arbitrary half spectra (representable samples at Q, '
         'all samples by interval for N<=32), max_fa_period against argmax of re^2+im^2 of the object\'s own spectrum (near-ties skipped as fragile); '
+        '(e) calc_fourier_moment(asig, n) (n in 0..6) and get_bandwidth_boore_2003(asig) on Signal / AccSignal objects and on stand-in objects with '
+        'arbitrary ascending grids and complex spectra: the object\'s own fa_frequencies / fa_spectrum (real and imaginary parts) shipped, pi = the '
+        'rational value of the float np.pi, the COMPLEX model moment (complex square of the spectrum) compared with the complex128 result within '
+        '1e-9 * (sum of absolute panel contributions) (tolerance 0 for n = 0 on small dyadic stand-ins); bandwidth compared csqrt-free: '
+        'out^2 = m2^2 / (m0 m4) on the implementation\'s own moments, Re(out) >= 0, nan exactly when m0 m4 = 0 (near-zero m0 m4 skipped as fragile); '
+        'np.trapz is bound to np.trapezoid (the name NumPy renamed it to) only around these calls when the installed NumPy has no np.trapz; the unpatched call is '
+        'observed first and the number of AttributeErrors is recorded in the evidence (not a violation: outside the property statement); '
         'non-trivial = record not identically zero and at least 2 samples')
 TRUSTED = [
     'Coq 8.16.1 kernel + vm_compute; Coq Interval tactic (proofs checked by the kernel at Qed)',
@@ -23,6 +30,14 @@ TRUSTED = [
     'generate_fa_spectrum, calc_fa_spectrum, fas2values, fas2signal (N rule, int(N/2) bins, [range(points)], * dt, the grid, the asserts, the Hermitian completion): '
     'trusted there is only the translator\'s reading of each whitelisted NumPy / Python call as its list / Z primitive (lib/NpArr.v, lib/NpList.v, lib/PyVal.v; '
     'np.fft.fft / np.fft.ifft stay parameters, instantiated by the defining sums and measured by the interval goals) and .npts == len(.values)',
+    'translator/py2coq_c06b.py (re-run on every check) + the C06_*_is_source theorems of Prop_C06_source for calc_fourier_moment, get_bandwidth_boore_2003 '
+    '(eqsig/fns/frequency.py) and max_fa_period (eqsig/im.py): every operand, literal (the 2\'s, the exponents 0/2/4, `1.`), attribute, the `x=` keyword and '
+    'operator is taken from the source text; trusted there is the reading of Python / NumPy complex arithmetic as the textbook formulas on (re, im) pairs and '
+    'of np.trapz(y, x=x) as (diff(x) * (y[1:] + y[:-1]) / 2.0).sum() (written out in the header of gen/Gen_c06b.v), np.argmax = first maximal index, '
+    'the object layer (.fa_frequencies, .fa_spectrum); np.pi, np.abs of a complex array (used only through `orders as re^2+im^2`, proved for the real '
+    'modulus) and np.sqrt of a complex number (checked only through out^2 and Re(out) >= 0) are parameters; a non-integer exponent n is outside the model',
+    'np.trapz does not exist in the installed NumPy (>= 2.4: renamed np.trapezoid), so calc_fourier_moment / get_bandwidth_boore_2003 raise AttributeError '
+    'for every input there; the correspondence calls them with np.trapz temporarily bound to np.trapezoid (environment finding, not under the property text)',
     'exact arithmetic (rounding not modelled): NumPy FFT is measured against the defining sum within 1e-12*dt*sum|x|, not proved',
     'Q-run vs R-theorems: same polymorphic definitions; rational twiddle table proved equal to cos/sin where used (C06_twiddle_table)',
     'Python harness (generators, rational encoding, goal emission, parsing)',
@@ -146,9 +161,91 @@ def impl_max_fa_period(cls, x, dt, pre=None):
         return np.array(sig.fa_spectrum), np.array(sig.fa_frequencies), float(p)
 
 
+class trapz_shim:
+    """np.trapz was removed from NumPy (2.4: renamed np.trapezoid); calc_fourier_moment still calls it and raises AttributeError
+    for every input under such a NumPy.  For the duration of a call np.trapz is bound to np.trapezoid (same function)."""
+    def __enter__(self):
+        self.added = not hasattr(np, 'trapz') and hasattr(np, 'trapezoid')
+        if self.added:
+            np.trapz = np.trapezoid
+        return self
+
+    def __exit__(self, *a):
+        if self.added:
+            try:
+                del np.trapz
+            except AttributeError:
+                pass
+        return False
+
+
+def spectral_object(kind, x, dt):
+    """('Signal' | 'AccSignal', record, dt) or ('standin', (fr, re, im), None): an object with .fa_frequencies / .fa_spectrum"""
+    import eqsig, types
+    if kind == 'standin':
+        fr, re, im = x
+        return types.SimpleNamespace(fa_frequencies=np.array(fr, dtype=float), fa_spectrum=np.array(re, dtype=float) + 1j * np.array(im, dtype=float))
+    return getattr(eqsig, kind)(np.array(x, dtype=float), dt)
+
+
+def as_complex(v, what):
+    if not isinstance(v, (complex, np.complexfloating)):
+        raise TypeError('%s returned %s (%r), expected a complex number' % (what, type(v).__name__, v))
+    return complex(v)
+
+
+UNPATCHED = {'calls': 0, 'AttributeError': 0, 'other': 0}
+
+
+def observe_unpatched(fn, *a):
+    """where the installed NumPy has no np.trapz: the call as shipped (no shim) is observed to raise AttributeError.  Counted only
+    (reported in the evidence); it is outside every clause of the property statement, so it is not a violation."""
+    if hasattr(np, 'trapz'):
+        return
+    UNPATCHED['calls'] += 1
+    try:
+        with warnings.catch_warnings():
+            warnings.simplefilter('ignore')
+            fn(*a)
+        UNPATCHED['other'] += 1
+    except AttributeError:
+        UNPATCHED['AttributeError'] += 1
+    except Exception:
+        UNPATCHED['other'] += 1
+
+
+def impl_moment(kind, x, dt, n):
+    from eqsig.fns import frequency as fq
+    sig = spectral_object(kind, x, dt)
+    observe_unpatched(fq.calc_fourier_moment, sig, n)
+    with trapz_shim(), warnings.catch_warnings():
+        warnings.simplefilter('ignore')
+        m = fq.calc_fourier_moment(sig, n)
+    return np.array(sig.fa_frequencies, dtype=float), np.array(sig.fa_spectrum), as_complex(m, 'calc_fourier_moment')
+
+
+def impl_boore(kind, x, dt):
+    from eqsig.fns import frequency as fq
+    sig = spectral_object(kind, x, dt)
+    observe_unpatched(fq.get_bandwidth_boore_2003, sig)
+    with trapz_shim(), warnings.catch_warnings():
+        warnings.simplefilter('ignore')
+        ms = [as_complex(fq.calc_fourier_moment(sig, n), 'calc_fourier_moment') for n in (0, 2, 4)]
+        out = as_complex(fq.get_bandwidth_boore_2003(sig), 'get_bandwidth_boore_2003')
+    return np.array(sig.fa_frequencies, dtype=float), np.array(sig.fa_spectrum), ms, out
+
+
+def qpair(z):
+    return '(%s, %s)' % (q(z.real), q(z.imag))
+
+
 def replay_call(rp):
     a = rp.get('args', {})
     f = rp.get('function', '')
+    if 'calc_fourier_moment' in f:
+        return impl_moment(a['kind'], a['values'] if a['kind'] != 'standin' else (a['fr'], a['re'], a['im']), a.get('dt'), a['n'])[2]
+    if 'get_bandwidth_boore_2003' in f:
+        return impl_boore(a['kind'], a['values'] if a['kind'] != 'standin' else (a['fr'], a['re'], a['im']), a.get('dt'))[3]
     if 'max_fa_period' in f:
         return impl_max_fa_period(a.get('cls', 'AccSignal'), a['values'], a['dt'], a.get('after_gen_fa_spectrum'))[2]
     if 'fas2' in f and 're' in a:
@@ -291,8 +388,22 @@ def regen_c06():
     return None
 
 
+def regen_c06b():
+    """re-translate calc_fourier_moment / get_bandwidth_boore_2003 (eqsig/fns/frequency.py) and max_fa_period (eqsig/im.py) into
+    coq/gen/Gen_c06b.v (fail closed): the `*_is_source` theorems of Prop_C06_source are then re-proved against the code in the repo"""
+    import os, sys
+    try:
+        sys.path.insert(0, os.path.join(core.VERIF, 'translator'))
+        import py2coq_c06b
+        py2coq_c06b.regenerate(repo=core.REPO)
+    except Exception as e:
+        return 'py2coq_c06b: %s: %s' % (type(e).__name__, e)
+    return None
+
+
 def run(rep, rng, tier):
     rep.prove('Prop_C06', gen_failed=regen_c06())
+    rep.prove('Prop_C06_source', gen_failed=regen_c06b())
     quick = tier == 'quick'
     cases, goals, goal_owner = [], [], []
     stats = {'fragile_skipped': 0, 'interval_goals': 0, 'interval_cases': 0}
@@ -606,6 +717,79 @@ def run(rep, rng, tier):
         cases.append(Case(coq, {'function': 'eqsig.im.max_fa_period', 'args': args, 'impl': repr(per)}, 'max_fa_period' + ('[after gen_fa_spectrum(%s)]' % pre[0] if pre else ''),
                           nontrivial=bool(np.any(x != 0)), klass='max_fa_period/' + ('inf' if math.isinf(per) else 'finite')))
 
+    # ---- (e) Fourier moments and the Boore bandwidth (complex arithmetic on the object's own spectrum)
+    PI = float(np.pi)
+    RT9 = Fraction(1, 10 ** 9)
+
+    def moment_input(k):
+        """(kind, payload, dt, args for the replay, exact?)"""
+        r0 = rng.random()
+        if r0 < 0.35:      # stand-in object: arbitrary ascending grid (possibly with repeated nodes / negative start), small dyadic complex spectrum
+            nb = rng.choice([1, 2, 2, 3, 4, 5, 8, 13, 24])
+            den = 2.0 ** rng.randint(0, 4)
+            f0 = rng.randint(-2, 3) / den
+            fr = list(np.cumsum([f0] + [rng.randint(0, 6) / den for _ in range(nb - 1)]))
+            re = [rng.randint(-9, 9) / rng.choice([1.0, 2.0, 4.0]) for _ in range(nb)]
+            im = [rng.randint(-9, 9) / rng.choice([1.0, 2.0, 4.0]) for _ in range(nb)]
+            if rng.random() < 0.15:
+                im = [0.0] * nb
+            return 'standin', (fr, re, im), None, {'kind': 'standin', 'fr': fr, 're': re, 'im': im}, True
+        npts = rng.randint(2, 70 if quick else 130)
+        x = exact_record(rng, npts) if r0 < 0.6 else tol_record(rng, npts)
+        if rng.random() < 0.06:
+            x = np.zeros(npts)
+        dt = rng.choice([0.01, 0.02, 0.1, gens.dyadic_dt(rng, 0, 6), rng.uniform(1e-3, 0.5)])
+        kind = 'AccSignal' if k % 3 else 'Signal'
+        return kind, x, dt, {'kind': kind, 'values': [float(v) for v in x], 'dt': float(dt)}, False
+
+    n_mom = 60 if quick else 600
+    for k in range(n_mom):
+        kind, payload, dt, args, exact = moment_input(k)
+        n = rng.choice([0, 2, 4, 0, 2, 4, 1, 3, 6])
+        r = guarded(impl_moment, kind, payload, dt, n)
+        args = dict(args, n=n)
+        if isinstance(r, ImplError):
+            bad('calc_fourier_moment', args, r)
+            continue
+        fr, fa, m = r
+        rtol = 0 if (exact and n == 0) else RT9
+        coq = 'CMoment %d %s %s %s %s %s %s' % (n, q(PI), qlist(fr), qlist(fa.real), qlist(fa.imag), qpair(m), q(rtol))
+        cases.append(Case(coq, {'function': 'eqsig.fns.frequency.calc_fourier_moment', 'args': args,
+                                'impl': {'fa_frequencies': fr, 'fa_spectrum': fa, 'moment': [m.real, m.imag]}}, 'calc_fourier_moment',
+                          nontrivial=bool(len(fr) >= 2 and np.any(fa != 0)),
+                          klass='calc_fourier_moment/%s/n%d/%s' % ('standin' if exact else 'object', n, 'exact' if rtol == 0 else 'tol')))
+    n_bw = 40 if quick else 400
+    for k in range(n_bw):
+        kind, payload, dt, args, exact = moment_input(k)
+        r = guarded(impl_boore, kind, payload, dt)
+        if isinstance(r, ImplError):
+            bad('get_bandwidth_boore_2003', args, r)
+            continue
+        fr, fa, ms, out = r
+        m0, m2, m4 = [(frac(z.real), frac(z.imag)) for z in ms]
+        if any(math.isnan(v) or math.isinf(v) for z in ms for v in (z.real, z.imag)):
+            stats['fragile_skipped'] += 1
+            continue
+        den = (m0[0] * m4[0] - m0[1] * m4[1], m0[0] * m4[1] + m0[1] * m4[0])
+        size = (abs(m0[0]) + abs(m0[1])) * (abs(m4[0]) + abs(m4[1]))
+        if den != (0, 0) and abs(den[0]) + abs(den[1]) <= size * Fraction(1, 10 ** 6):
+            stats['fragile_skipped'] += 1         # m0 m4 nearly the complex zero: the quotient is ill-conditioned
+            continue
+        is_nan = math.isnan(out.real) or math.isnan(out.imag)
+        if not is_nan and (math.isinf(out.real) or math.isinf(out.imag)):
+            stats['fragile_skipped'] += 1
+            continue
+        coq = 'CBoore %s %s %s %s %s %s %s %s %s' % (q(PI), qlist(fr), qlist(fa.real), qlist(fa.imag), qpair(ms[0]), qpair(ms[1]), qpair(ms[2]),
+                                                     'None' if is_nan else '(Some %s)' % qpair(out), q(RT9))
+        cases.append(Case(coq, {'function': 'eqsig.fns.frequency.get_bandwidth_boore_2003', 'args': args,
+                                'impl': {'fa_frequencies': fr, 'fa_spectrum': fa, 'm0_m2_m4': [[z.real, z.imag] for z in ms], 'bandwidth': repr(out)}},
+                          'get_bandwidth_boore_2003', nontrivial=bool(len(fr) >= 2 and np.any(fa != 0)),
+                          klass='get_bandwidth_boore_2003/%s/%s' % ('standin' if exact else 'object', 'nan' if is_nan else 'finite')))
+
+    if UNPATCHED['calls']:
+        stats['np_trapz_absent_unpatched_calls'] = UNPATCHED['calls']
+        stats['np_trapz_absent_unpatched_calls_raising_AttributeError'] = UNPATCHED['AttributeError']
+        stats['np_trapz_absent_unpatched_calls_other_outcome'] = UNPATCHED['other']
     rep.correspond('model.K_C06', 'check_case', cases, describe='model_out (%s)', extra_imports='From EQ Require Import lib.Dft model.M_fourier.\n')
 
     # ---- interval goals
